@@ -204,6 +204,8 @@ EXPORT errno_t _mbsrtowcs_s_chk(size_t *restrict retvalp,
                 if (errno == 0) {
                     errno = EILSEQ;
                 }
+                /* leave the conversion state usable again */
+                memset(ps, 0, sizeof(*ps));
             }
             rc = (tmp == 0) ? ESNOSPC : errno;
             /* the entire src must have been copied, if not reset dest
